@@ -131,6 +131,63 @@ def h_switch(a, inst):
     return True
 
 
+# ------------------------------------------------------------------ feedback: the consumer switches while an inner is still emitting
+from reactivex.subject import Subject  # noqa: E402
+from engine.lib import Injected  # noqa: E402
+
+FB_PIPES = {
+    "switch_latest": lambda outer, inners: outer.pipe(ops.map(lambda k: inners[k]), ops.switch_latest()),
+    "switch_map": lambda outer, inners: outer.pipe(ops.switch_map(lambda k: inners[k])),
+    "switch_map_indexed": lambda outer, inners: outer.pipe(ops.switch_map_indexed(lambda k, i: inners[k])),
+    "flat_map_latest": lambda outer, inners: outer.pipe(ops.flat_map_latest(lambda k: inners[k])),
+}
+
+
+@harness(instances=lambda tier: [{"pipe": p} for p in FB_PIPES], aterm=I(0, 2), order=I(0, 1), nb=I(0, 2), bterm=I(0, 2), timeout=(60, 600), stock=False)
+def h_feedback(a, inst):
+    """inner A emits a1 synchronously while it is being subscribed; the consumer reacts to a1 by pushing inner B (a Subject) into
+    the outer, so A is replaced in the middle of its own emission; A then completes / errors / goes on (it is stale by now); the
+    outer completes before or after B emits.  Only B counts from then on: the result ends when B and the outer have ended"""
+    outer, b = Subject(), Subject()
+    got = []
+    ea, eb = Injected("a"), Injected("b")
+
+    def sub_a(observer, scheduler=None):
+        observer.on_next("a1")
+        observer.on_next("a2")  # stale already: must be dropped
+        if a.aterm == 1:
+            observer.on_completed()
+        elif a.aterm == 2:
+            observer.on_error(ea)
+
+    inners = {"A": reactivex.create(sub_a), "B": b}
+
+    def on_next(x):
+        got.append(("N", x))
+        if x == "a1":
+            outer.on_next("B")
+
+    FB_PIPES[inst["pipe"]](outer, inners).subscribe(on_next, lambda e: got.append(("E", e)), lambda: got.append(("C",)))
+    outer.on_next("A")
+    if a.order == 0:
+        outer.on_completed()
+    for i in range(a.nb):
+        b.on_next(10 + i)
+    if a.order == 1:
+        outer.on_completed()
+    if a.bterm == 1:
+        b.on_completed()
+    elif a.bterm == 2:
+        b.on_error(eb)
+    exp = [("N", "a1")] + [("N", 10 + i) for i in range(a.nb)]
+    if a.bterm == 1:
+        exp.append(("C",))
+    elif a.bterm == 2:
+        exp.append(("E", eb))
+    cover("ran")
+    return got == exp
+
+
 ENCODED = ["reactivex/operators/_switchlatest.py", "reactivex/operators/__init__.py"]
 BOUNDS = {"quick": "outer hot timeline of 1..2 inner sources (1 element each, 2 for a single inner; thorough: 2x2, 3x1, 3x2; first element 0..2 ticks after subscription), outer "
                    "gaps in [0,2] so lifetimes overlap, outer and inner terminal kinds never/completed/error (every combination is "
